@@ -5,6 +5,8 @@ from ..index import Inconclusive, norm
 from ..interp import Interp, Policy, show, show_lit, walk_effects, K, NONE
 from .. import rules_fold
 from ..rules_escape import rule_explicit_raises, rule_fallback_discipline, site_of
+from ..rules_implicit import rule_nullable_deref, rule_partial_map_lookup
+from ._shared import Models
 
 EXPLANATION = (
     "Static analysis (interprocedural exception-escape analysis over the resolved call graph, plus structural rules; no "
@@ -186,3 +188,10 @@ def run(check):
     check.run_rule('C15.R3', lambda c: rule_validation(c, 'C15.R3'))
     check.run_rule('C15.R4', lambda c: rule_upgrade_on_entry(c, 'C15.R4'))
     check.run_rule('C15.R5', lambda c: rule_fallback_discipline(c, 'C15.R5'))
+    M = Models(check)
+    check.run_rule('C15.R6', lambda c: rule_nullable_deref(c, 'C15.R6', M.merge(), M.embed(), M.mask()))
+
+    def r7(c):
+        from ..rules_alias import Alias
+        rule_partial_map_lookup(c, 'C15.R7', Alias(c))
+    check.run_rule('C15.R7', r7)
